@@ -872,11 +872,11 @@ class WcSplit(Generic[AnyStr]):
                     except StopIteration:
                         pass
                 elif c == '[':
-                    index = i.index
+                    index2 = i.index
                     try:
                         self._sequence(i)
                     except StopIteration:
-                        i.rewind(i.index - index)
+                        i.rewind(i.index - index2)
 
         except StopIteration:
             success = False
